@@ -10,6 +10,8 @@ use crate::states::{build, Coll, Spec, COLLS, RECIPES};
 use crate::util::{Json, Rng};
 
 pub fn run(c: &mut Ctx) {
+    // this property rebuilds every state many times: very large sparse states are capped at 2^22 buckets
+    crate::states::set_huge_max_lg(22);
     c.run_scenarios(|c, idx, rng| {
         if crate::util::mix(idx ^ 0x1a26e) % 40 == 0 && !crate::util::slow_lane() {
             let name = *rng.pick(&LARGE_COLLS);
@@ -163,7 +165,8 @@ fn absent_ids<C: Coll>(col: &C, n: usize, rng: &mut Rng) -> Vec<u32> {
     while out.len() < n && tries < 4 * n + 600 {
         tries += 1;
         id = if space > 70000 { id.wrapping_add(1 + rng.below(3) as u32) % space } else { (id + 1) % space.max(1) };
-        if !col.has(id) && !out.contains(&id) {
+        // in a large id space the walk is strictly increasing, so a candidate cannot repeat
+        if !col.has(id) && (space > 70000 || !out.contains(&id)) {
             out.push(id);
         }
     }
@@ -234,7 +237,8 @@ pub fn scenario<C: Coll>(c: &mut Ctx, idx: u64, rng: &mut Rng, name: &str) {
     // --- inserting up to capacity()-len() absent keys performs no allocation ---
     {
         let room = col.capacity() - col.len();
-        let ids = absent_ids(&col, room.min(20_000), rng);
+        // (bulk inserts are quadratic under clustering plans)
+        let ids = absent_ids(&col, room.min(if spec.plan.is_clustering() { 400 } else { 20_000 }), rng);
         // through insert, or through Extend from an iterator with any lawful size hint (exact, loose upper bound, none)
         let n = ids.len();
         let route = rng.below(7);
@@ -283,7 +287,7 @@ pub fn scenario<C: Coll>(c: &mut Ctx, idx: u64, rng: &mut Rng, name: &str) {
         x.reserve(n);
         crate::check!(x.capacity() >= len + n, "{} [{}]: after reserve({}) capacity() {} < len() {} + {}", name, spec.describe(), n, x.capacity(), len, n);
         // and the reserved room is real
-        let ids = absent_ids(&x, n.min(300), rng);
+        let ids = absent_ids(&x, n.min(if spec.plan.is_clustering() { 60 } else { 300 }), rng);
         let a0 = ckalloc::counters();
         for id in &ids {
             x.put(*id, 7);
@@ -359,7 +363,7 @@ pub fn scenario<C: Coll>(c: &mut Ctx, idx: u64, rng: &mut Rng, name: &str) {
         // the kept allocation is usable: refilling up to the reported capacity, also through Extend with a loose
         // upper size hint, allocates nothing
         {
-            let room = x.capacity().min(3000);
+            let room = x.capacity().min(if spec.plan.is_clustering() { 300 } else { 3000 });
             let ids = absent_ids(&x, room, rng);
             let n = ids.len();
             let b0 = ckalloc::counters();
